@@ -7,3 +7,9 @@ pub use ordering_sender::OrderingSender;
 pub use unordered_receiver::{
     DeserializeError, EndOfStreamError, Error as UnorderedReceiverError, UnorderedReceiver,
 };
+
+/// Verification harness (child module: reaches the private buffer types). `--cfg ipa_verif` only.
+#[cfg(all(test, ipa_verif))]
+pub(crate) mod verif_h2 {
+    include!(concat!(env!("IPA_VERIF_DIR"), "/harness/h2_buffers.rs"));
+}
